@@ -5,7 +5,7 @@ ALL = ['default', 'noalloc', 'nounicode', 'nostd']
 
 COMMON_ASSUMPTIONS = [
     'the compiler\'s MIR (opt-level 0, after drop elaboration) is a faithful representation of the source',
-    'fatfs has no unsafe code, no function pointers and no dynamic dispatch of its own (asserted on every run)',
+    'fatfs has no unsafe code and no dynamic dispatch of its own, and a call through a function pointer inside fatfs can only reach a function the program itself turns into a pointer (asserted on every run; such calls get an edge to every candidate)',
     'the device, clock, code page and log sink are leaves: nothing is assumed about what they do',
 ]
 
